@@ -294,7 +294,7 @@ def build(read):
         "impl Clone for BindType { #[verifier::external_body] fn clone(&self) -> (r: Self) ensures r == *self { unimplemented!() } }\nimpl Copy for BindType {}",
         MODEL,
         "pub mod scope {\n    use super::*;\n// ---- verbatim from src/eval/scope.rs\n" + setf + "\n}",
-        parts.value_ctors(b, read, ["new_val_ref_with_no_source", "new_str"]),
+        parts.value_ctors(b, read, ["new_val_ref_with_no_source", "new_val_ref_with_source", "new_null", "new_bool", "new_int", "new_str", "new_list", "new_object"]),
         "// ---- verbatim macro from src/eval/bind.rs", mac,
         "// ---- functions under contract (verbatim bodies; contract text inserted at anchors)",
         f3, f1, f2,
